@@ -118,7 +118,8 @@ package protocol
 //@   ensures[C08] ok: err == nil ==> len(data) >= 8 && le32(data, 4) >= 8 && int(le32(data, 4)) <= len(data)
 //@   ensures[C08] fields: err == nil ==> packetType == le16(data, 0) && size == le32(data, 4)
 //@   ensures[C08] payload: err == nil ==> packet == data[8:int(size)]
-//@   ensures[C08] reject: len(data) < 8 || int(le32(data, 4)) > len(data) ==> err != nil
+//@   ensures[C08] reject: len(data) < 8 || int(le32(data, 4)) > len(data) || le32(data, 4) < 8 ==> err != nil
+//@   ensures[C08] accept: len(data) >= 8 && le32(data, 4) >= 8 && int(le32(data, 4)) <= len(data) ==> err == nil
 //@   nopanic[C10]
 
 //@ func (*Processor).channelRequest
